@@ -321,7 +321,7 @@ def stats(nodes):
 
 class Profile:
     def __init__(self, depth=3, sibs=4, twin=False, lists=1.0, defs=1.0, spaced=False, verb=1.0,
-                 math=1.0, comments=1.0, strict_sep=False, flat=0, ws=0.0, lines=0.0):
+                 math=1.0, comments=1.0, strict_sep=False, flat=0, ws=0.0, lines=0.0, plain=False):
         self.depth = depth
         self.sibs = sibs
         self.twin = twin
@@ -333,6 +333,7 @@ class Profile:
         self.comments = comments
         self.strict_sep = strict_sep   # C14: after every command no letter, *, [, {
         self.flat = flat
+        self.plain = plain  # C07.2: text without [ ], benign comments
         self.ws = ws        # probability that a text node is a single blank run
         self.lines = lines  # probability that a text node is a line break (+ indentation)
 
@@ -412,6 +413,8 @@ class Gen:
                     a = self.pick(PUNCT)
                 elif k < 9:
                     a = self.pick(ESCAPES)
+                elif self.p.plain:
+                    a = self.pick(('(', ')', ';'))
                 else:
                     a = self.pick(('[', ']', '[', '(', ')'))
             if ctx.bracket and ']' in a:
@@ -421,7 +424,7 @@ class Gen:
 
     def comment(self, ctx):
         n = self.int(0, 4)
-        payload = ''.join(self.pick(COMMENT_ATOMS) for _ in range(n))
+        payload = ''.join(self.pick(BENIGN_ATOMS[:2] + BENIGN_ATOMS[3:] if self.p.plain else COMMENT_ATOMS) for _ in range(n))
         return Node('comment', text=payload, delim='\n')
 
     def args_generic(self, ctx, depth, maxopt=2, maxreq=3):
@@ -501,8 +504,11 @@ class Gen:
         n = Node('env', name=name, args=args, body=self.body(ctx.derive(bracket=False, in_item=False), depth - 1))
         if self.p.spaced:
             n.pre = self.pick(ATTACH_SEPS)
-            for a in args:
-                a.pre = self.pick(ATTACH_SEPS)
+            # the name group opens the run of brace groups: further brace groups may be spaced, but a
+            # bracket group after it is beyond C09's shape and attaches only when adjacent
+            if all(a.kind == '{' for a in args):
+                for a in args:
+                    a.pre = self.pick(ATTACH_SEPS)
         return n
 
     def lst(self, ctx, depth):
@@ -769,7 +775,7 @@ PROFILES = {
     'small': Profile(depth=2, sibs=3),
     'smalltwin': Profile(depth=2, sibs=3, twin=True),
     'strict': Profile(depth=3, sibs=4, twin=True, strict_sep=True),
-    'nomath': Profile(depth=3, sibs=4, math=0.0, verb=0.0, lists=0.0),
+    'nomath': Profile(depth=3, sibs=4, math=0.0, verb=0.0, lists=0.0, plain=True),
     'ws': Profile(depth=3, sibs=5, ws=0.45),
     'lines': Profile(depth=3, sibs=5, lines=0.4),
 }
